@@ -1,4 +1,4 @@
-// GENERATED on every run by vlib/extract.py from /repo -- do not edit
+// GENERATED on every run by vlib/extract.py from /tmp/seedcheck-20768 -- do not edit
 #![allow(unused_imports, unused_variables, unused_mut, dead_code, unused_parens, unused_braces, non_snake_case)]
 use vstd::prelude::*;
 use core::cmp::Ordering;
@@ -242,6 +242,40 @@ pub proof fn lemma_lower_ascii_fixed(s: Seq<char>)
     assert(lower_ascii_seq(s) =~= s);
 }
 
+// ---- idempotence of lower-casing (C10, C12) ----
+/// A-validated (exhaustive over all scalar values): lower-casing the lower-case mapping of a char changes nothing
+#[verifier::external_body]
+pub proof fn axiom_lower_idem_char(c: char)
+    ensures lower_seq(u_to_lower(c)) == u_to_lower(c)
+{ }
+
+pub proof fn lemma_lower_seq_concat(a: Seq<char>, b: Seq<char>)
+    ensures lower_seq(a + b) == lower_seq(a) + lower_seq(b)
+    decreases b.len()
+{
+    if b.len() == 0 {
+        assert(a + b =~= a);
+        assert(lower_seq(a) + lower_seq(b) =~= lower_seq(a));
+    } else {
+        assert((a + b).drop_last() =~= a + b.drop_last());
+        assert((a + b).last() == b.last());
+        lemma_lower_seq_concat(a, b.drop_last());
+        assert(lower_seq(a + b) =~= lower_seq(a) + lower_seq(b));
+    }
+}
+
+/// lower-casing is a projection: applying it twice is applying it once
+pub proof fn lemma_lower_seq_idem(s: Seq<char>)
+    ensures lower_seq(lower_seq(s)) == lower_seq(s)
+    decreases s.len()
+{
+    if s.len() > 0 {
+        lemma_lower_seq_idem(s.drop_last());
+        axiom_lower_idem_char(s.last());
+        lemma_lower_seq_concat(lower_seq(s.drop_last()), u_to_lower(s.last()));
+    }
+}
+
 // ---- unit T.PurlField  <= purl/src/parse.rs:112 ----
 #[derive(Debug, Clone, Copy)]
 pub enum PurlField {
@@ -395,6 +429,21 @@ pub proof fn lemma_lt_asym(a: Seq<char>, b: Seq<char>)
     ensures !str_lt(b, a)
 {
     lemma_lex_flip(a, b);
+}
+
+/// in a strictly ascending list, the value paired with key `k` is the one at `pos_of(k)`
+pub proof fn lemma_has_pair_pos(v: Seq<(QualifierKey, SmallString)>, k: Seq<char>)
+    requires keys_sorted(v)
+    ensures forall|val: Seq<char>| has_pair(v, k, val) ==> 0 <= pos_of(v, k) < v.len() && v[pos_of(v, k)].0.0@ == k && v[pos_of(v, k)].1@ == val
+{
+    assert forall|val: Seq<char>| has_pair(v, k, val) implies 0 <= pos_of(v, k) < v.len() && v[pos_of(v, k)].0.0@ == k && v[pos_of(v, k)].1@ == val by {
+        let i = choose|i: int| 0 <= i < v.len() && #[trigger] v[i].0.0@ == k && v[i].1@ == val;
+        assert forall|j: int| 0 <= j < i implies str_lt(#[trigger] v[j].0.0@, k) by { assert(str_lt(v[j].0.0@, v[i].0.0@)); }
+        assert forall|j: int| i <= j < v.len() implies !str_lt(#[trigger] v[j].0.0@, k) by {
+            if j == i { lemma_lt_irrefl(k); } else { assert(str_lt(v[i].0.0@, v[j].0.0@)); lemma_lt_asym(k, v[j].0.0@); }
+        }
+        lemma_pos_of(v, k, i);
+    }
 }
 // ---- R9: stub of std's AsRef, with a specification of the text it exposes ----
 pub uninterp spec fn view_of<T: ?Sized>(t: &T) -> Seq<char>;
@@ -1041,7 +1090,39 @@ where K: AsRef<str>,
 pub trait KnownQualifierKey {
     const KEY: &'static str;
 }
+// ---- unit theory.tryfrom  <= (contracts):0 ----
+// ---- R9: stub of std's TryFrom with a relation describing what an implementation returns ----
+pub trait TryFrom<T>: Sized {
+    type Error;
+    spec fn try_from_rel(t: T, r: Result<Self, Self::Error>) -> bool;
+    fn try_from(t: T) -> (r: Result<Self, Self::Error>)
+        ensures Self::try_from_rel(t, r);
+}
+pub assume_specification<T, E> [Option::<Result<T, E>>::transpose] (o: Option<Result<T, E>>) -> (r: Result<Option<T>, E>)
+    ensures match o {
+        None => r == Ok::<Option<T>, E>(None),
+        Some(Ok(x)) => r == Ok::<Option<T>, E>(Some(x)),
+        Some(Err(e)) => r == Err::<Option<T>, E>(e),
+    };
+
 impl Qualifiers {
+// ---- unit U-qmap.try_get_typed  <= purl/src/qualifiers.rs:134 ----
+pub fn try_get_typed<'a, Q>(&'a self) -> (r: Result<Option<Q>, Q::Error>)
+where Q: TryFrom<&'a str> + KnownQualifierKey,
+        requires self.wf()
+        ensures
+            // absent (or undeclarable) key: nothing to convert
+            !(valid_key(Q::KEY@) && has_key(self.qualifiers@, lower_ascii_seq(Q::KEY@))) ==> r is Ok && r->Ok_0 is None,
+            // present: exactly one conversion of the stored text, its outcome passed through
+            valid_key(Q::KEY@) && has_key(self.qualifiers@, lower_ascii_seq(Q::KEY@)) ==>
+                exists|s: &'a str, x: Result<Q, Q::Error>|
+                    s@ == self.qualifiers@[pos_of(self.qualifiers@, lower_ascii_seq(Q::KEY@))].1@ && #[trigger] Q::try_from_rel(s, x)
+                    && match x { Ok(q) => r == Ok::<Option<Q>, Q::Error>(Some(q)), Err(e) => r == Err::<Option<Q>, Q::Error>(e) },
+{
+        
+        proof { lemma_has_pair_pos(self.qualifiers@, lower_ascii_seq(Q::KEY@)); }
+self.get(Q::KEY).map(Q::try_from).transpose()
+    }
 // ---- unit U-qmap.insert_typed  <= purl/src/qualifiers.rs:232 ----
 pub fn insert_typed<Q>(&mut self, value: Q) where Q: KnownQualifierKey, SmallString: From<Q>,
         requires old(self).wf(), valid_key(Q::KEY@)
